@@ -727,6 +727,56 @@ def _task_huge(si):
     return acc.result()
 
 
+def _task_same_name(_):
+    """Two DISTINCT entity classes with the same module and qualified name but different layouts (class factories,
+    reloaded modules): readers and writers are per class, whichever is derived or used first."""
+    import dataclasses as dc
+    from typing import ClassVar
+
+    from kio.serial import entity_reader, entity_writer
+    from kio.static.constants import EntityType
+    from kio.static.primitive import i16, i32, i64
+
+    acc = Acc(max_samples=1)
+
+    def make(t, kt):
+        ns = {"__type__": EntityType.nested, "__version__": i16(0), "__flexible__": False, "__module__": "kverif.synthetic",
+              "__annotations__": {"__type__": ClassVar, "__version__": ClassVar[i16], "__flexible__": ClassVar[bool], "value": t},
+              "value": dc.field(metadata={"kafka_type": kt})}
+        return dc.dataclass(frozen=True, slots=True, kw_only=True)(type("SameName", (), ns))
+
+    n = 0
+    for order in itertools.permutations(range(4)):
+        n += 1
+        clear_caches()
+        narrow, wide = make(i32, "int32"), make(i64, "int64")  # fresh classes each time: nothing cached under their ids
+        steps = [("w", narrow, narrow(value=i32(1)), bytes.fromhex("00000001")), ("w", wide, wide(value=i64(1)), bytes.fromhex("0000000000000001")),
+                 ("r", narrow, narrow(value=i32(258)), bytes.fromhex("00000102")), ("r", wide, wide(value=i64(2**40 + 5)), bytes.fromhex("0000010000000005"))]
+        acc.add("evaluations")
+        acc.add("same_name_histories")
+        for step, i in enumerate(order):
+            kind, cls, inst, data = steps[i]
+            try:
+                if kind == "w":
+                    b = io.BytesIO()
+                    entity_writer(cls)(b, inst)
+                    ok, obs = b.getvalue() == data, b.getvalue().hex()
+                else:
+                    src = io.BytesIO(data + b"\xee")
+                    v = entity_reader(cls)(src)
+                    ok, obs = (v == inst and type(v) is cls and src.tell() == len(data)), f"{v!r} at {src.tell()}"
+            except Exception as e:  # noqa: BLE001
+                ok, obs = False, repr(e)[:200]
+            if not ok:
+                acc.report(violation("C19", "same-name", "C19/same-name/result-depends-on-another-class-of-the-same-name", "kverif.synthetic:SameName",
+                                     {"same_name_history": [steps[j][0] + ("32" if steps[j][1] is narrow else "64") for j in order], "failing_step": step},
+                                     data.hex() if kind == "w" else repr(inst), obs, (n, step)))
+                break
+        else:
+            acc.outcome("classes of the same name keep their own readers and writers")
+    return acc.result()
+
+
 def run_c19(tier):
     run = Run("C19", tier, "model_checking")
     subjects()
@@ -760,6 +810,9 @@ def run_c19(tier):
         run.merge(res)
     # part 1d: a huge message in between
     for res in pmap(_task_huge, list(range(len(CLASS_SET)))):
+        run.merge(res)
+    # part 1e: two classes of one name
+    for res in pmap(_task_same_name, [0]):
         run.merge(res)
     # part 1b: abstract-state BFS (in this process)
     acc = Acc()
@@ -829,7 +882,7 @@ def run_c19(tier):
         "the thread that continues after another ends is the lowest-numbered one unless a preemption says otherwise); (4) equal twins: on classes "
         "with float64 / timestamp fields, every sequence up to length 3 of writing and reading two values that are == and hash-equal but "
         "encode differently (0.0 / -0.0; the two instants of a repeated DST hour in their zone); (5) per subject and string / bytes slot: small, HUGE "
-        "(2 MiB + 4321 bytes), small, long - written, then read. Golden results come from the "
+        "(2 MiB + 4321 bytes), small, long - written, then read; (6) two distinct classes of one module and qualified name with different layouts, all 24 orders of writing and reading both. Golden results come from the "
         "reference codec. Non-trivial = every history but the empty one, every fault position, every schedule"
     )
     c["exhaustive"] = not run.caps
@@ -851,6 +904,9 @@ def replay(prop, path):
         L = [tuple(x) for x in letters()]
         hist = tuple(L.index(tuple(op)) for op in case["history"])
         run_history(hist, acc, (0,))
+    elif "same_name_history" in case:
+        res = _task_same_name(0)
+        acc.violations = {v["signature"]: v for v in res["violations"]}
     elif "huge_history" in case:
         res = _task_huge(CLASS_SET.index(case["class"]))
         acc.violations = {v["signature"]: v for v in res["violations"]}
